@@ -96,7 +96,12 @@ def write_inputs(run, d, use_dump):
                 f.write("frame %d\n%5d\n" % (fi, len(fr["pos"])))
                 for i, p in enumerate(fr["pos"]):
                     f.write("%5d%-5s%5s%5d%8.3f%8.3f%8.3f\n" % (i + 1, "X", "X", i + 1, p[0] / 8.0, p[1] / 8.0, p[2] / 8.0))
-                f.write("%10.5f%10.5f%10.5f\n" % tuple(x / 8.0 for x in fr["box"]))
+                bx = fr["box"]
+                if len(bx) == 3:
+                    f.write("%10.5f%10.5f%10.5f\n" % tuple(x / 8.0 for x in bx))
+                else:   # triclinic <<ax,by,cz,bx,cx,cy>> -> v1(x) v2(y) v3(z) v1(y) v1(z) v2(x) v2(z) v3(x) v3(y)
+                    vals = (bx[0], bx[1], bx[2], 0, 0, bx[3], 0, bx[4], bx[5])
+                    f.write("".join("%10.5f" % (x / 8.0) for x in vals) + "\n")
     tg = []
     if run["doimc"]:
         for it in run["inter"]:
@@ -321,9 +326,9 @@ def run(ctx):
         for s0 in range(seed0, seed0 + nseed, chunk):
             ns = min(chunk, seed0 + nseed - s0)
             res = vlib.tlc("statimc", "MCStat", cfg="MCStat.cfg", timeout=2400,
-                           env={"C04_KINDS": 12345 if s0 == seed0 else 1234, "C04_SEED0": s0, "C04_NSEED": ns,
+                           env={"C04_KINDS": 123456 if s0 == seed0 else 12346, "C04_SEED0": s0, "C04_NSEED": ns,
                                 "C04_WIDE": 0 if quick else 1})
-            vlib.tlc_must_hold(res, "StatImc: ScenarioOK, RunningMean, GmcSymmetric, BlockIndependent, FinalIsFresh")
+            vlib.tlc_must_hold(res, "StatImc: ScenarioOK (incl. vacuity guards), RunningMean, GmcSymmetric, BlockIndependent, FinalIsFresh")
             ctx.add_tlc("MCStat seeds %d..%d" % (s0, s0 + ns - 1), res, constants={"Blocks": [0, 1, 2, 3] + ([] if quick else [4]), "Firsts": [0, 2] if quick else [0, 1, 2, 3]})
             runs += res.records
         if not runs:
@@ -337,7 +342,7 @@ def run(ctx):
     with ThreadPoolExecutor(max_workers=vlib.NCPU) as ex:
         outs = list(ex.map(work, list(enumerate(runs))))
 
-    kinds = {1: "same", 2: "two", 3: "mol", 4: "3b", 5: "probe"}
+    kinds = {1: "same", 2: "two", 3: "mol", 4: "3b", 5: "probe", 6: "tric"}
     for i, (r, (d, cmd, rc, out, tgts)) in enumerate(zip(runs, outs)):
         ctx.traces += 1
         if r["nframes"] > 1 or r["block"]:
